@@ -125,7 +125,13 @@ def run(ctx):
             if i % 2 == 0:
                 # two graphs that are equal as numbers, names and structure but differ in the dtype of their float tensors
                 try:
-                    ga, gb = gen.dtype_twins(pool[0][0])
+                    src = pool[0][0]
+                    if i % 4 == 0:
+                        # (directed: a graph that certainly holds float64 tensors)
+                        src = {"type": "NIRGraph", "meta": None, "edges": [["a", "b"]],
+                               "nodes": [["a", {"type": "Affine", "kwargs": [["weight", gen.arr(rng, [2, 3], "<f8")], ["bias", gen.arr(rng, [2], "<f8")]]}],
+                                         ["b", {"type": "Scale", "kwargs": [["scale", gen.arr(rng, [2], "<f8")]]}]]}
+                    ga, gb = gen.dtype_twins(src)
                     oa, ob = impl_construct(ga), impl_construct(gb)
                     nir.write(io.BytesIO(), oa); nir.write(io.BytesIO(), ob)
                     if compare.graph_diff(oa, ob):
@@ -135,11 +141,35 @@ def run(ctx):
             # nested variants that share names with other graphs: residue would show
             # (the register is the *path*, whatever its spelling: suffixes that tools treat specially included)
             base = os.path.join(tmpdir, rng.choice([f"reg{i}.nir", f"reg{i}.nir", f"reg{i}.tmp", f"reg{i}.nir.tmp", f"reg{i}",
-                                                    f"reg{i}.h5", f"reg.{i}.bak", f"reg{i}.tmp.nir", f"reg{i}.part", f".reg{i}"]))
+                                                    f"reg{i}.h5", f"reg.{i}.bak", f"reg{i}.tmp.nir", f"reg{i}.part", f".reg{i}",
+                                                    f"ckpt{i}_$VERIFSTEP.nir", f"ckpt{i}_${{VERIFSTEP}}x.nir", f"~reg{i}.nir"]))
+            os.environ["VERIFSTEP"] = "7"            # (a '$name' in a file name is part of the name, whatever the environment)
+            tilde_cwd = None
+            if i % 5 == 2:
+                # the path as the OS resolves it: through a symbolic link to a directory and back up with '..'
+                # (link -> real/sub, so link/.. is real/, not the folder the link sits in), or below a folder named '~'
+                try:
+                    real = os.path.join(tmpdir, f"real{i}", "sub"); os.makedirs(real, exist_ok=True)
+                    link = os.path.join(tmpdir, f"link{i}")
+                    if not os.path.lexists(link):
+                        os.symlink(real, link)
+                    tilde = os.path.join(tmpdir, f"t{i}", "~"); os.makedirs(tilde, exist_ok=True)
+                    base = rng.choice([os.path.join(link, "..", f"model{i}.nir"), os.path.join(tilde, f"model{i}.nir"), "~"])
+                    if base == "~":
+                        # the relative spelling '~/model.nir' from inside the folder that holds the '~' directory
+                        tilde_cwd = os.path.dirname(tilde)
+                        base = os.path.join("~", f"model{i}.nir")
+                    else:
+                        tilde_cwd = None
+                    ctx.count("histories_through_symlink_or_tilde")
+                except Exception:
+                    pass
             # the register is the path given, wherever the process happens to stand: every third history runs with the
             # working directory set to a folder holding a *different* NIR file under the same base name
             old_cwd = None
-            if i % 3 == 0:
+            if i % 5 == 2 and locals().get("tilde_cwd"):
+                old_cwd = os.getcwd(); os.chdir(tilde_cwd)
+            elif i % 3 == 0:
                 try:
                     bdir = os.path.join(tmpdir, "elsewhere%d" % i)
                     os.makedirs(bdir, exist_ok=True)
